@@ -64,13 +64,16 @@ def change_detection():
     return 'bool', cbool(ok and not _change_if().orelse)
 
 
-def pdata_assigned_before_write():
-    """self.persistentData = data is the first statement of the if body, i.e. before the file is written"""
-    body = _change_if().body
-    assigns = [n for n in walk_type(_save(), ast.Assign) if any(is_self_attr(t, 'persistentData') for t in n.targets)]
+def pdata_assigned_after_rename():
+    """the only assignment self.persistentData = data of __save_params directly follows os.rename(...) inside the try
+    body (so it is reached only when the new file is in place), and the dumped object is `data`"""
+    t = _try()
+    assigns = [n for n in walk_type(_save(), ast.Assign) if any(is_self_attr(x, 'persistentData') for x in n.targets)]
     if len(assigns) != 1:
         raise Shape('__save_params: expected exactly one assignment to self.persistentData')
-    return 'bool', cbool(body[0] is assigns[0] and _norm(assigns[0].value) == 'data')
+    ok = len(t.body) == 3 and t.body[2] is assigns[0] and _norm(assigns[0].value) == 'data' and \
+        isinstance(t.body[1], ast.Expr) and _is_call(t.body[1].value, 'os.rename')
+    return 'bool', cbool(ok)
 
 
 def writes_go_to_tmp():
@@ -107,14 +110,14 @@ def only_rename_writes_target():
 
 
 def rename_after_closed_with_block():
-    """try body = [with open(tmp, 'w') as f: (json.dump(self.persistentData, f, ...); f.write('\\n')), os.rename(...)]"""
+    """try body = [with open(tmp, 'w') as f: (json.dump(data, f, ...); f.write('\\n')), os.rename(...), assignment]"""
     t = _try()
-    if len(t.body) != 2 or not isinstance(t.body[0], ast.With) or not isinstance(t.body[1], ast.Expr):
+    if len(t.body) != 3 or not isinstance(t.body[0], ast.With) or not isinstance(t.body[1], ast.Expr):
         return 'bool', 'false'
     w = t.body[0]
     ok = _is_call(t.body[1].value, 'os.rename')
     stmts = [_norm(s) for s in w.body]
-    ok = ok and len(stmts) == 2 and stmts[0].startswith('json.dump(self.persistentData,f') and stmts[1] == "f.write('\\n')"
+    ok = ok and len(stmts) == 2 and stmts[0].startswith('json.dump(data,f') and stmts[1] == "f.write('\\n')"
     ok = ok and len(w.items) == 1 and _is_call(w.items[0].context_expr, 'open') and \
         isinstance(w.items[0].optional_vars, ast.Name) and w.items[0].optional_vars.id == 'f'
     return 'bool', cbool(ok and not t.handlers and not t.orelse)
@@ -147,10 +150,37 @@ def unreadable_file_is_empty():
     h = t.handlers[0]
     names = sorted(_norm(e) for e in h.type.elts) if isinstance(h.type, ast.Tuple) else [_norm(h.type)]
     ok = names == ['FileNotFoundError', 'ValueError'] and len(h.body) == 1 and _norm(h.body[0]) == 'self.persistentData={}'
-    ok = ok and len(t.body) == 1 and isinstance(t.body[0], ast.With) and \
+    ok = ok and len(t.body) == 2 and isinstance(t.body[0], ast.With) and \
         _norm(t.body[0].body[0]) == 'self.persistentData=json.load(f)' and \
         _norm(t.body[0].items[0].context_expr).startswith("open(self.persistentFile,'r'")
     return 'bool', cbool(ok)
+
+
+def nonobject_document_is_unreadable():
+    """inside the same try, after the with block: if not isinstance(self.persistentData, dict): raise ValueError(...)"""
+    t = _load().body[0]
+    if not isinstance(t, ast.Try) or len(t.body) != 2 or not isinstance(t.body[1], ast.If):
+        return 'bool', 'false'
+    i = t.body[1]
+    ok = _norm(i.test) == 'notisinstance(self.persistentData,dict)' and len(i.body) == 1 and \
+        isinstance(i.body[0], ast.Raise) and _norm(i.body[0].exc).startswith('ValueError(') and not i.orelse
+    return 'bool', cbool(ok)
+
+
+def entries_validated_and_exportable():
+    """under `if getattr(pobj, 'persistent', False)`: datatype = pobj.datatype;
+    imported = datatype.validate(datatype.import_value(value)); datatype.export_value(imported); result[pname] = imported"""
+    lp = [n for n in _load().body if isinstance(n, ast.For)]
+    if len(lp) != 1 or not isinstance(lp[0].body[0], ast.Try):
+        return 'bool', 'false'
+    ifs = [i for i in lp[0].body[0].body if isinstance(i, ast.If) and _norm(i.test) == "getattr(pobj,'persistent',False)"]
+    if len(ifs) != 1:
+        return 'bool', 'false'
+    b = [_norm(x) for x in ifs[0].body]
+    ok = b == ['datatype=pobj.datatype', 'imported=datatype.validate(datatype.import_value(value))',
+               'datatype.export_value(imported)', 'result[pname]=imported']
+    n = [a for a in walk_type(_load(), ast.Assign) if any(_norm(x) == 'result[pname]' for x in a.targets)]
+    return 'bool', cbool(ok and len(n) == 1)
 
 
 def entries_imported_individually():
@@ -224,9 +254,10 @@ def callback_exceptions_swallowed():
     return 'bool', 'false'
 
 
-FACTS = [change_detection, pdata_assigned_before_write, writes_go_to_tmp, only_rename_writes_target,
+FACTS = [change_detection, pdata_assigned_after_rename, writes_go_to_tmp, only_rename_writes_target,
          rename_after_closed_with_block, remove_tmp_in_finally, unreadable_file_is_empty,
-         entries_imported_individually, cfg_precedes_file, given_set_for_configured_values,
+         nonobject_document_is_unreadable, entries_imported_individually, entries_validated_and_exportable,
+         cfg_precedes_file, given_set_for_configured_values,
          save_deferred_while_writes_pending, init_saves_after_loading, callback_exceptions_swallowed]
 
 FINGERPRINTS = {
@@ -301,22 +332,8 @@ def blob_import_strict_base64():
     return 'bool', cbool('returnb64decode(value,validate=True)' in s)
 
 
-def int_and_blob_import_without_limits():
-    """IntRange has no import_value of its own (DataType.import_value = self(value), __call__ has no limit test);
-    BLOBType.import_value does not look at minbytes/maxbytes"""
-    cls = find_class(parse(DT), 'IntRange')
-    has_own = any(isinstance(n, ast.FunctionDef) and n.name == 'import_value' for n in cls.body)
-    call = _norm(_dt_func('IntRange', '__call__'))
-    base = _norm(_dt_func('DataType', 'import_value'))
-    blob = _norm(_dt_func('BLOBType', 'import_value'))
-    ok = not has_own and 'self.min' not in call and 'self.max' not in call and 'returnself(value)' in base \
-        and 'minbytes' not in blob and 'maxbytes' not in blob
-    return 'bool', cbool(ok)
-
-
 FACTS += [array_import_checks_kind_and_length, tuple_import_checks_kind_and_length,
-          struct_import_admits_missing_optional, scaled_import_integers_only, blob_import_strict_base64,
-          int_and_blob_import_without_limits]
+          struct_import_admits_missing_optional, scaled_import_integers_only, blob_import_strict_base64]
 for _cls, _fn in (('ArrayOf', 'import_value'), ('ArrayOf', 'check_type'), ('TupleOf', 'import_value'),
                   ('TupleOf', 'check_type'), ('StructOf', 'import_value'), ('StructOf', 'check_type'),
                   ('ScaledInteger', 'import_value'), ('BLOBType', 'import_value')):
